@@ -25,7 +25,7 @@ EXPLANATION = (
     "other per-client state, so a retry after a failure starts from scratch. (CMP) FileFilter.matches rejects iff dt < "
     "after / dt >= before for both date pairs, compares extensions with both operands lower-cased and matches patterns "
     "against the full path. (PART) files and folders partition the listing on the same key tests; both pagination loops "
-    "follow @odata.nextLink; the walk yields every file of a folder and recurses into every folder that has an id."
+    "follow @odata.nextLink; the walk yields every file of a folder and recurses into every folder that has an id. (PROP) on the listing path every handler that can catch the client's error family re-raises on every path. (ERR, continued) a request error raised with a status is never raised inside a try whose handler catches it and raises another error. (PART, continued) skip-path enumeration of the walk: every listed file is yielded and a folder is skipped only when it has no id."
 )
 NOT_DECIDED = ["completeness / exactly-once over arbitrary trees and page sizes", "results of retries (value level)", "fnmatch and datetime.fromisoformat semantics"]
 TRUSTED = ["urllib raises HTTPError (an open response) for non-2xx answers when the transport is urlopen", "CFG with exceptional edges"]
